@@ -298,8 +298,50 @@ let run_render (id : string) (fields : sexp list) =
     | None -> Printf.sprintf "%d:PANIC" w in
   Printf.printf "%s\tRENDER\t%s\n" id (String.concat ";" (List.map one widths))
 
+(* ------------------------------------------------------------------ shell renderers *)
+let chars_of (s : sexp) : str =
+  match utf8_decode (hx s) with Some cs -> cs | None -> failwith "not UTF-8"
+let opt_chars = function A "-" -> None | h -> Some (chars_of h)
+
+let run_shell (id : string) (rev : string) (fields : sexp list) =
+  let items = match find_field "items" fields with
+    | Some l -> List.map (function
+        | L [A "i"; s; p; g; h] -> { sc_subst = chars_of s; sc_pretty = chars_of p; sc_group = opt_chars g; sc_help = opt_chars h }
+        | _ -> failwith "bad item") l
+    | None -> [] in
+  let ops = match find_field "ops" fields with
+    | Some l -> List.map (function
+        | L [A "file"; m] -> OpFile (opt_chars m)
+        | L [A "dir"; m] -> OpDir (opt_chars m)
+        | L [A "raw"; b; z; f; e] -> OpRaw (chars_of b, chars_of z, chars_of f, chars_of e)
+        | L [A "nothing"] -> OpNothing
+        | _ -> failwith "bad op") l
+    | None -> [] in
+  let lit = match find_field "lit" fields with Some [h] -> chars_of h | _ -> [] in
+  let out = match rev with
+    | "7" -> render_zsh items ops lit
+    | "8" -> render_bash items ops lit
+    | "9" -> render_fish items ops lit
+    | "1" -> render_simple items
+    | _ -> failwith "bad revision" in
+  Printf.printf "%s\tSHELL\t%s\n" id (hex_of_bytes (utf8_encode out))
+
 let run_case (line : string) =
   match parse_sexp line with
+  | L (A "shell" :: A id :: A rev :: fields) ->
+    (try run_shell id rev fields with Failure m -> Printf.printf "%s\tBADCASE\t%s\n" id m)
+  | L [A "argmatch"; A id; arg; sh; lo] ->
+    (try
+       let short = match sh with A "-" -> None | A cp -> Some (n_of_int (int_of_string cp)) | _ -> failwith "bad short" in
+       (match arg_matches (chars_of arg) short (opt_chars lo) with
+        | Some n -> Printf.printf "%s\tMATCH\t%s\n" id (hex_of_bytes (utf8_encode n))
+        | None -> Printf.printf "%s\tMATCH\t-\n" id)
+     with Failure m -> Printf.printf "%s\tBADCASE\t%s\n" id m)
+  | L [A "cmdmatch"; A id; arg; name; sh] ->
+    (try
+       let short = match sh with A "-" -> None | A cp -> Some (n_of_int (int_of_string cp)) | _ -> failwith "bad short" in
+       Printf.printf "%s\tMATCH\t%b\n" id (cmd_matches (chars_of arg) (chars_of name) short)
+     with Failure m -> Printf.printf "%s\tBADCASE\t%s\n" id m)
   | L [A "progname"; A id; h] ->
     (match program_name (Some (hx h)) with
      | Some n -> Printf.printf "%s\tNAME\t%s\n" id (hex_of_bytes n)
